@@ -668,6 +668,62 @@ def part_c(task):
     return acc
 
 
+# =============================================================== (c2) every manager class honours num_pools
+MANAGER_KINDS = ("PoolManager", "ProxyManager-http", "ProxyManager-https", "proxy_from_url")
+S_ORIGINS = ["https://a.test", "https://b.test", "https://c.test"]
+
+
+def make_manager(kind, num_pools):
+    from urllib3 import ProxyManager
+    if kind == "PoolManager":
+        return PoolManager(num_pools=num_pools)
+    if kind == "ProxyManager-http":
+        return ProxyManager("http://proxy.test:3128", num_pools=num_pools)
+    if kind == "ProxyManager-https":
+        return ProxyManager("https://proxy.test:3128", num_pools=num_pools)
+    if kind == "proxy_from_url":
+        return urllib3.proxy_from_url("http://proxy.test:3128", num_pools=num_pools)
+    raise HarnessError(kind)
+
+
+def run_c2(kind, num_pools, seq):
+    """pools are created (connection_from_url), nothing connects: after every step the cache holds the num_pools most
+    recently used origins in recency order (tunnelled https origins: one pool per origin for every manager class)"""
+    pm = make_manager(kind, num_pools)
+    lru = []
+    out = []
+    for step, k in enumerate(seq):
+        pm.connection_from_url(S_ORIGINS[k] + "/x")
+        if k in lru:
+            lru.remove(k)
+        lru.append(k)
+        del lru[:-num_pools]
+        hosts = [key.key_host for key in pm.pools._container.keys()]
+        want = [S_ORIGINS[i][8:] for i in lru]
+        if len(hosts) > num_pools:
+            out.append(("too-many-pools", {"manager": kind}, {"step": step, "cached": hosts}, num_pools))
+            break
+        if hosts != want:
+            out.append(("lru-order", {"manager": kind}, {"step": step, "cached": hosts}, want))
+            break
+    pm.clear()
+    return out
+
+
+def part_c2(task):
+    kind, num_pools, depth = task
+    acc = Acc()
+    for L in range(1, depth + 1):
+        for seq in itertools.product(range(len(S_ORIGINS)), repeat=L):
+            acc.n += 1
+            acc.counters["transitions"] += L
+            acc.counters["c2_sequences"] += 1
+            for clause, sig, obs, exp in run_c2(kind, num_pools, seq):
+                acc.violation(clause, dict(sig, part="c2", num_pools=num_pools),
+                              {"part": "c2", "manager": kind, "num_pools": num_pools, "seq": list(seq)}, observed=obs, expected=exp)
+    return acc
+
+
 # =============================================================== (d) PoolManager schedules
 _watched_pm = False
 
@@ -843,6 +899,8 @@ def _dispatch(t):
         return part_b(t[1])
     if kind == "c":
         return part_c(t[1])
+    if kind == "c2":
+        return part_c2(t[1])
     if kind == "d":
         return part_d(t[1])
     raise HarnessError(kind)
@@ -860,6 +918,9 @@ def run(ctx):
         tasks.append(("b", (cfg, bound if len(cfg[2]) == 2 else min(bound, 2))))
     for num_pools in (1, 2):
         tasks.append(("c", (num_pools, 4 if not ctx.thorough else 6)))
+    for kind in MANAGER_KINDS:
+        for num_pools in (1, 2, 3):
+            tasks.append(("c2", (kind, num_pools, 4 if not ctx.thorough else 6)))
     for cfg in d_configs(ctx.thorough):
         tasks.append(("d", (cfg, bound if len(cfg[1]) == 2 else min(bound, 2))))
     acc = ctx.gather(_dispatch, tasks)
@@ -882,6 +943,7 @@ def run(ctx):
         "rule": "(a) BFS to fixpoint over real RecentlyUsedContainer x 36 ops x maxsize 0..3 (+ stateless depth cross-check); "
                 "(b) every interleaving with <= bound preemptions of 2-3 threads x 1-2 container ops (LINE-level points + lock stand-in), "
                 "brute-force linearizability vs the LRU reference; (c) BFS over PoolManager op histories on simnet; "
+                "(c2) every https-origin sequence up to the depth on every manager class x num_pools 1..3; "
                 "(d) every interleaving with <= bound preemptions of racing connection_from_url/clear",
     }
     ctx.finish("model_checking", acc, cov,
@@ -918,6 +980,10 @@ def replay(case):
             acc.violation("not-linearizable", {"part": "b", "maxsize": cfg[0], "ops": sorted({c["op"][0] for c in s.calls})}, case,
                           observed={"results": [(c["tid"], c["op"], c["result"]) for c in s.calls], "final": s.final, "disposed": s.displog}, expected="linearizable")
         return {"trace": [(str(w), a, b) for w, a, b in s.trace][:200], "violations": acc.viol}
+    if part == "c2":
+        for clause, sig, obs, exp in run_c2(case["manager"], case["num_pools"], case["seq"]):
+            acc.violation(clause, dict(sig, part="c2", num_pools=case["num_pools"]), case, observed=obs, expected=exp)
+        return {"violations": acc.viol}
     if part == "c":
         w = MWorld(case["num_pools"])
         for op in case["hist"]:
